@@ -11,9 +11,16 @@ use std::sync::{Arc, Mutex, OnceLock};
 /// that the step / jump properties do not depend on how `from_seed` decodes or remaps seeds —
 /// that is C01's and C08's subject).
 pub fn gen_in_state(ty: Ty, s: &Bits) -> Box<dyn Gen> {
+    try_gen_in_state(ty, s).expect("state through Deserialize")
+}
+
+/// `None` if `Deserialize` refuses the state. The all-zero state is the one state an
+/// implementation may legitimately refuse (no generator built through the API is ever in it);
+/// callers that need it treat a refusal as "not constructible, nothing to observe".
+pub fn try_gen_in_state(ty: Ty, s: &Bits) -> Option<Box<dyn Gen>> {
     let info = ty.info();
     let bytes = s.to_bytes(info.seed_len);
-    adapter::from_state_bytes(ty, &bytes).expect("state through Deserialize")
+    adapter::from_state_bytes(ty, &bytes)
 }
 
 /// state observation: the serde image, validated by the round trip Deserialize(image) == g
@@ -32,13 +39,13 @@ pub fn state_of(g: &dyn Gen) -> Result<Bits, String> {
 
 /// one real step from state s
 pub fn step(ty: Ty, s: &Bits) -> Result<Bits, String> {
-    let mut g = gen_in_state(ty, s);
+    let mut g = try_gen_in_state(ty, s).ok_or("state not constructible through Deserialize")?;
     g.next_native();
     state_of(&*g)
 }
 
 pub fn jump(ty: Ty, s: &Bits, long: bool) -> Result<Bits, String> {
-    let mut g = gen_in_state(ty, s);
+    let mut g = try_gen_in_state(ty, s).ok_or("state not constructible through Deserialize")?;
     if long {
         g.long_jump();
     } else {
